@@ -102,3 +102,25 @@ def _install_crosshair_patches():
 
 
 _install_crosshair_patches()
+
+
+_KNOWN_CACHE = None
+
+
+def known_open(finding_id):
+    """True iff known_findings.json lists `finding_id` as an open finding (and exclusions are not switched off).
+    Harnesses use it to skip exactly the recorded family of inputs; removing the entry from the file makes the
+    check report the finding as a violation again."""
+    global _KNOWN_CACHE
+    if KNOWN_OFF:
+        return False
+    if _KNOWN_CACHE is None:
+        import json
+        path = os.path.join(os.path.dirname(os.path.dirname(os.path.abspath(__file__))), 'known_findings.json')
+        try:
+            with open(path) as f:
+                data = json.load(f)
+            _KNOWN_CACHE = {e.get('id') for e in data.get('findings', []) if e.get('status', 'open') == 'open'}
+        except (OSError, ValueError):
+            _KNOWN_CACHE = set()
+    return finding_id in _KNOWN_CACHE
